@@ -478,6 +478,7 @@ func sortStrings(s []string) {
 }
 
 func propC16(cx *sim.Ctx) {
+	sim.Declare([]string{"short_name_collision_in_history", "anonymous_type_after_anonymous_type", "inverse_law_judged"}, []string{"failed_recomposition", "process_restart"})
 	t := cx.T
 	ops := rapid.SliceOfN(rapid.Custom(drawOp16), 2, 10).Draw(t, "ops")
 	restartAt := -1
